@@ -14,16 +14,20 @@ import (
 // S-trigger (C19): the real TimerBasedElectionTrigger alone. A worker-role thread arms, re-arms, stops and
 // arms again; a reader-role thread (the main loop's role) receives triggers; expiries are environment steps.
 func init() {
-	for _, r := range []int{0, 1, 3} {
-		r := r
-		name := fmt.Sprintf("S-trigger-r%d", r)
-		register(&Scenario{Name: name, Props: []string{"C19"}, MaxFires: 3, Horizon: 5000, Body: func(x *X) { sTrigger(x, r) }})
-		quickBound[name], thoroughBound[name] = 5, 7
+	// operation sequences of the worker-role thread: A = arm, re-arm, stop, arm the next height;
+	// B = arm, stop, arm the SAME pair again; C = arm, arm the same pair (no-op), stop
+	for _, seq := range []string{"A", "B", "C"} {
+		for _, r := range []int{0, 1, 3} {
+			r, seq := r, seq
+			name := fmt.Sprintf("S-trigger-%s-r%d", seq, r)
+			register(&Scenario{Name: name, Props: []string{"C19"}, MaxFires: 3, Horizon: 5000, Body: func(x *X) { sTrigger(x, r, seq) }})
+			quickBound[name], thoroughBound[name] = 5, 7
+		}
 	}
 }
 
 // maxReads = how many triggers the reader-role thread is willing to receive (0 = absent reader).
-func sTrigger(x *X, maxReads int) {
+func sTrigger(x *X, maxReads int, seq string) {
 	s := x.S
 	const base = 7 * time.Millisecond
 	et := Electiontrigger.NewTimerBasedElectionTrigger(base, nil)
@@ -39,9 +43,25 @@ func sTrigger(x *X, maxReads int) {
 		invoked[fmt.Sprintf("%d/%d", h, v)]++
 	}
 	var got []string
+	current := func() *arming {
+		for _, a := range arms {
+			if a.superAt < 0 {
+				return a
+			}
+		}
+		return nil
+	}
 	arm := func(h, v uint64) {
 		before := len(s.Timers)
+		cur := current()
+		same := cur != nil && cur.h == h && cur.v == v // arming the pair that is already armed is a no-op
 		et.RegisterOnElection(primitives.BlockHeight(h), primitives.View(v), cb)
+		if same {
+			if len(s.Timers) > before {
+				x.Bad("C19", "duplicate-arming", "RegisterOnElection(%d,%d) for the pair that is already armed created a second timer", h, v)
+			}
+			return
+		}
 		for _, a := range arms {
 			if a.superAt < 0 {
 				a.superAt = len(got)
@@ -58,17 +78,40 @@ func sTrigger(x *X, maxReads int) {
 		}
 		arms = append(arms, a)
 	}
-	workerDone := false
-	s.Thread("worker", func() {
-		arm(1, 0)
-		arm(1, 1)
+	stop := func() {
 		et.Stop()
 		for _, a := range arms {
 			if a.superAt < 0 {
 				a.superAt = len(got)
 			}
 		}
-		arm(2, 0)
+	}
+	workerDone := false
+	s.Thread("worker", func() {
+		// vs.CtxPoint() = an explicit scheduling point between two operations of the worker role
+		// (time passes between them in reality: the timer may expire there)
+		switch seq {
+		case "A":
+			arm(1, 0)
+			vs.CtxPoint()
+			arm(1, 1)
+			vs.CtxPoint()
+			stop()
+			vs.CtxPoint()
+			arm(2, 0)
+		case "B":
+			arm(1, 0)
+			vs.CtxPoint()
+			stop()
+			vs.CtxPoint()
+			arm(1, 0)
+		case "C":
+			arm(1, 0)
+			vs.CtxPoint()
+			arm(1, 0)
+			vs.CtxPoint()
+			stop()
+		}
 		workerDone = true
 	})
 	reads := 0
@@ -83,7 +126,7 @@ func sTrigger(x *X, maxReads int) {
 			// which arming does it belong to?
 			var owner *arming
 			for _, a := range arms {
-				if fmt.Sprintf("%d/%d", a.h, a.v) == k {
+				if fmt.Sprintf("%d/%d", a.h, a.v) == k && (owner == nil || a.timer >= 0 && s.Timers[a.timer].Fired && a.received == 0) {
 					owner = a
 				}
 			}
@@ -111,17 +154,13 @@ func sTrigger(x *X, maxReads int) {
 	if !workerDone {
 		x.Bad("C19", "register-blocked", "RegisterOnElection/Stop never returned: blocked=%v", s.Blocked())
 	}
-	// liveness: the last arming is never superseded; if its timer expired the reader (still reading) must have got it
-	if workerDone && len(arms) == 3 {
-		last := arms[2]
-		if last.timer >= 0 && s.Timers[last.timer].Fired && reads < maxReads && last.received == 0 {
-			x.Bad("C19", "trigger-lost", "the timer of the un-superseded arming (2,0) expired but its trigger never reached the reader; blocked=%v", s.Blocked())
+	// liveness: an arming that is never superseded, whose timer expired, must reach a reader that is still reading
+	if workerDone {
+		if last := current(); last != nil && last.timer >= 0 && s.Timers[last.timer].Fired && reads < maxReads && last.received == 0 {
+			x.Bad("C19", "trigger-lost", "the timer of the un-superseded arming (%d,%d) expired but its trigger never reached the reader; blocked=%v", last.h, last.v, s.Blocked())
 		}
 		for k, n := range invoked {
-			if k != "2/0" && n > 0 {
-				// acted on a superseded pair: only possible if the reader acted while it was current
-			}
-			if n > 1 {
+			if n > len(arms) {
 				x.Bad("C19", "callback-twice", "election callback for %s invoked %d times", k, n)
 			}
 		}
